@@ -2,6 +2,8 @@ package checks
 
 import (
 	"bytes"
+	"encoding"
+	"reflect"
 	"encoding/json"
 	"encoding/xml"
 	"fmt"
@@ -267,6 +269,57 @@ func runC17(c *vlib.Check) {
 			v("mask-extra", "registered mask %s is not in the pinned registry", mname)
 		}
 	}
+	// --- the typed text forms: MarshalText / UnmarshalText of every enumeration Go type
+	types := reachableEnumTypes()
+	typed := 0
+	for ename, vals := range pin.Enums {
+		t, ok := types[ename]
+		if !ok {
+			continue
+		}
+		typed++
+		// a name that belongs to another enumeration only (must be rejected in this scope)
+		foreign := ""
+		for other, ov := range pin.Enums {
+			if other == ename {
+				continue
+			}
+			for n := range ov {
+				if _, here := vals[n]; !here && !reHexName.MatchString(n) {
+					foreign = n
+				}
+			}
+			if foreign != "" {
+				break
+			}
+		}
+		for vn, num := range vals {
+			c.Eval([]byte(fmt.Sprint("typed", ename, vn)), true)
+			pv := reflect.New(t)
+			pv.Elem().SetUint(uint64(num))
+			if m, ok := pv.Interface().(encoding.TextMarshaler); ok {
+				txt, err := m.MarshalText()
+				if err != nil || string(txt) != vn {
+					v("typed-enum-marshaltext", "%s(0x%08X).MarshalText() = %q (%v), pinned name %q", ename, num, txt, err, vn)
+				}
+			}
+			back := reflect.New(t)
+			if u, ok := back.Interface().(encoding.TextUnmarshaler); ok {
+				if err := u.UnmarshalText([]byte(vn)); err != nil || uint32(back.Elem().Uint()) != num {
+					v("typed-enum-unmarshaltext", "(*%s).UnmarshalText(%q) = 0x%08X (%v), pinned 0x%08X", ename, vn, back.Elem().Uint(), err, num)
+				}
+			}
+		}
+		if foreign != "" {
+			back := reflect.New(t)
+			if u, ok := back.Interface().(encoding.TextUnmarshaler); ok {
+				if err := u.UnmarshalText([]byte(foreign)); err == nil {
+					v("typed-enum-foreign-name-accepted", "(*%s).UnmarshalText(%q) accepts a name of another enumeration (as 0x%08X)", ename, foreign, back.Elem().Uint())
+				}
+			}
+		}
+	}
+	c.Extra["enumeration_go_types_checked"] = typed
 	// --- independent source: every element name and enumeration / mask value name used by the OASIS vectors
 	c17Vectors(c, pin, v)
 	names := make([]string, 0, 4)
